@@ -41,6 +41,7 @@ type c19Event struct {
 	Reason int `json:"r"`
 	Line   int `json:"l"`
 	Col    int `json:"c"`
+	G      int `json:"g,omitempty"` // goroutine that emitted the event (always 0 in the modelled, sequential programs)
 }
 
 type c19Session struct {
@@ -68,19 +69,46 @@ func c19NewInterp(out, errb *bytes.Buffer) *interp.Interpreter {
 	return i
 }
 
-// c19Plain evaluates the program without a debugger.
+// c19Plain evaluates the program without a debugger, through the plain entry point Eval (NOT
+// EvalWithContext: the context variants switch the channel operations to their cancellable
+// implementations, which is what the Debugger always runs). The generated programs terminate; a
+// watchdog reports one that does not.
 func c19Plain(src string, timeout time.Duration) (stdout, end, result string) {
 	var out, errb bytes.Buffer
 	i := c19NewInterp(&out, &errb)
-	ctx, cancel := context.WithTimeout(context.Background(), timeout)
-	defer cancel()
-	v, err := i.EvalWithContext(ctx, src)
-	return out.String(), yaegiEnd(err), c19Result(v)
+	type res struct {
+		v   reflect.Value
+		err error
+	}
+	done := make(chan res, 1)
+	go func() {
+		var r res
+		defer func() {
+			if p := recover(); p != nil {
+				r.err = fmt.Errorf("host panic: %v", p)
+			}
+			done <- r
+		}()
+		r.v, r.err = i.Eval(src)
+	}()
+	select {
+	case r := <-done:
+		return out.String(), yaegiEnd(r.err), c19Result(r.v)
+	case <-time.After(timeout):
+		return "", "timeout", ""
+	}
 }
 
-// c19Trace runs the program plainly with instrumented closures. pregen: the real SetBreakpoints is
-// run first with a line request (on a detached Debugger value), as in a session with line requests.
-func c19Trace(src string, pregen bool, timeout time.Duration) (steps []interp.VerifC19Step, dump []interp.VerifC19Node, stdout, end string) {
+// trace modes
+const (
+	c19TracePlain  = 0 // Compile + Execute: the closures of plain execution
+	c19TraceCtx    = 1 // Compile + ExecuteWithContext: the closures a debug session without line requests runs
+	c19TraceCtxPre = 2 // SetBreakpoints with a line request first, then ExecuteWithContext
+)
+
+// c19Trace runs the program without a debugger attached, with instrumented closures, the closures
+// being generated as in the given mode.
+func c19Trace(src string, mode int, timeout time.Duration) (steps []interp.VerifC19Step, dump []interp.VerifC19Node, stdout, end string) {
 	var out, errb bytes.Buffer
 	i := c19NewInterp(&out, &errb)
 	prog, err := i.Compile(src)
@@ -93,12 +121,45 @@ func c19Trace(src string, pregen bool, timeout time.Duration) (steps []interp.Ve
 		steps = append(steps, s)
 		mu.Unlock()
 	})
-	if pregen {
-		interp.VerifC19SetLineBreakpoints(i, prog, []int{1})
+	if mode == c19TraceCtxPre {
+		if msg := func() (msg string) {
+			defer func() {
+				if p := recover(); p != nil {
+					msg = fmt.Sprint(p)
+				}
+			}()
+			interp.VerifC19SetLineBreakpoints(i, prog, []int{1})
+			return ""
+		}(); msg != "" {
+			return nil, nil, "", "host-panic:" + msg
+		}
+	}
+	if mode == c19TracePlain {
+		done := make(chan error, 1)
+		go func() {
+			var e error
+			defer func() {
+				if p := recover(); p != nil {
+					e = fmt.Errorf("host panic: %v", p)
+				}
+				done <- e
+			}()
+			_, e = i.Execute(prog)
+		}()
+		select {
+		case err = <-done:
+		case <-time.After(timeout):
+			return nil, nil, "", "timeout"
+		}
+		mu.Lock()
+		defer mu.Unlock()
+		return steps, interp.VerifC19Dump(prog), out.String(), yaegiEnd(err)
 	}
 	ctx, cancel := context.WithTimeout(context.Background(), timeout)
 	defer cancel()
 	_, err = i.ExecuteWithContext(ctx, prog)
+	mu.Lock()
+	defer mu.Unlock()
 	return steps, interp.VerifC19Dump(prog), out.String(), yaegiEnd(err)
 }
 
@@ -125,6 +186,7 @@ func c19Debug(src string, lines []int, funcs []string, reqs []c19Req, timeout ti
 				p := fr[0].Position()
 				ev.Line, ev.Col = p.Line, p.Column
 			}
+			ev.G = e.GoRoutine()
 		}
 		evch <- ev
 	}, nil)
@@ -136,13 +198,30 @@ func c19Debug(src string, lines []int, funcs []string, reqs []c19Req, timeout ti
 		bq = append(bq, interp.FunctionBreakpoint(f))
 	}
 	if len(bq) > 0 {
-		for _, b := range dbg.SetBreakpoints(interp.ProgramBreakpointTarget(prog), bq...) {
-			res.Valid = append(res.Valid, b.Valid)
+		hostPanic := func() (msg string) {
+			defer func() {
+				if p := recover(); p != nil {
+					msg = fmt.Sprint(p)
+				}
+			}()
+			for _, b := range dbg.SetBreakpoints(interp.ProgramBreakpointTarget(prog), bq...) {
+				res.Valid = append(res.Valid, b.Valid)
+			}
+			return ""
+		}()
+		if hostPanic != "" {
+			res.Hang = "SetBreakpoints panicked in the host: " + hostPanic
+			func() {
+				defer func() { recover() }()
+				dbg.Terminate()
+			}()
+			cancel()
+			return res
 		}
 	}
 	deadline := time.Now().Add(timeout)
 	next := 0
-	issue := func() string {
+	issue := func(gid int) string {
 		rq := c19Req("c")
 		if next < len(reqs) {
 			rq = reqs[next]
@@ -159,17 +238,17 @@ func c19Debug(src string, lines []int, funcs []string, reqs []c19Req, timeout ti
 				var err error
 				switch rq {
 				case "c":
-					err = dbg.Continue(0)
+					err = dbg.Continue(gid)
 				case "i":
-					err = dbg.Step(0, interp.DebugStepInto)
+					err = dbg.Step(gid, interp.DebugStepInto)
 				case "o":
-					err = dbg.Step(0, interp.DebugStepOver)
+					err = dbg.Step(gid, interp.DebugStepOver)
 				case "u":
-					err = dbg.Step(0, interp.DebugStepOut)
+					err = dbg.Step(gid, interp.DebugStepOut)
 				case "e":
-					err = dbg.Step(0, interp.DebugEntry)
+					err = dbg.Step(gid, interp.DebugEntry)
 				case "p":
-					err = dbg.Step(0, interp.DebugPause)
+					err = dbg.Step(gid, interp.DebugPause)
 				case "t":
 					dbg.Terminate()
 				}
@@ -203,7 +282,7 @@ func c19Debug(src string, lines []int, funcs []string, reqs []c19Req, timeout ti
 		res.Stdout = out.String()
 		return res
 	}
-	if h := issue(); h != "" {
+	if h := issue(0); h != "" {
 		return finish(h)
 	}
 	waited := make(chan struct{})
@@ -234,7 +313,7 @@ func c19Debug(src string, lines []int, funcs []string, reqs []c19Req, timeout ti
 				return res
 			case c19EnterG, c19ExitG:
 			default:
-				if h := issue(); h != "" {
+				if h := issue(ev.G); h != "" {
 					return finish(h)
 				}
 			}
@@ -414,7 +493,9 @@ func (s *c19Sim) orig(n, pc int) int {
 	return -1
 }
 
-func (s *c19Sim) isExec(n, pc int) bool { return n >= 0 && s.g.PC[n] != 0 && pc != 0 && s.g.PC[n] == pc }
+func (s *c19Sim) isExec(n, pc int) bool {
+	return n >= 0 && s.g.PC[n] != 0 && pc != 0 && s.g.PC[n] == pc
+}
 
 func (s *c19Sim) track(n0, m, pc int) int {
 	if m < 0 {
